@@ -32,7 +32,9 @@ theorem notify_exactly_once {s : St} (h : Reachable s) (hidle : ∀ t, s.pcs t =
   GroupP.notify_exactly_once h hidle hz
 
 /-- **wait returns 0 only if the group was empty at some moment during the call**: a slow-path return of 0 implies
-    the generation under which the waiter registered has passed (generations advance only at count 0) -/
+    the generation under which the waiter registered has passed (generations advance only at count 0). In the model the
+    address wait may return at any time (woken, spuriously, interrupted by a signal): a return is never taken for a wake-up,
+    the waiter re-reads the generation -/
 theorem wait_zero_sound {s : St} (h : Reachable s) (t : Tid) (g0 g : Nat)
     (hp : s.pcs t = .wRet true (some (g0, g))) : g < s.sh.w.gen :=
   GroupP.wait_zero_sound h t g0 g hp
